@@ -60,6 +60,32 @@ func DialSmallWindow(addr string, rcvbuf int) (*Conn, error) {
 	return &Conn{C: c, raw: bufio.NewReader(c), Timeout: 4 * time.Second}, nil
 }
 
+// DialReuse connects from the given local address ("ip:port", port 0 = any) with SO_REUSEADDR and SO_REUSEPORT set, so that a
+// second connection can leave from the same local address and port towards another address of the server.
+func DialReuse(addr, local string) (*Conn, error) {
+	la, err := net.ResolveTCPAddr("tcp", local)
+	if err != nil {
+		return nil, err
+	}
+	d := net.Dialer{Timeout: 3 * time.Second, LocalAddr: la, Control: func(network, address string, rc syscall.RawConn) error {
+		var serr error
+		if err := rc.Control(func(fd uintptr) {
+			serr = syscall.SetsockoptInt(int(fd), syscall.SOL_SOCKET, syscall.SO_REUSEADDR, 1)
+			if serr == nil {
+				serr = syscall.SetsockoptInt(int(fd), syscall.SOL_SOCKET, 0xf /* SO_REUSEPORT */, 1)
+			}
+		}); err != nil {
+			return err
+		}
+		return serr
+	}}
+	c, err := d.Dial("tcp", addr)
+	if err != nil {
+		return nil, err
+	}
+	return &Conn{C: c, raw: bufio.NewReader(c), Timeout: 4 * time.Second}, nil
+}
+
 func (c *Conn) Close() { c.C.Close() }
 
 // Upgrade switches both directions to the secure session derived from the pair-verify shared secret.
